@@ -13,7 +13,6 @@ namespace CanonF
 
 structure StepJ (n : Nat) (nb : Nbrs) (JA JN JS : List (Nat × Nat) → LS → Prop) : Prop where
   na : ∀ lv s, JN lv s → JA lv s
-  sa : ∀ lv s, JS lv s → JA lv s
   /-- `maybeDeage` with `skipDeage = false` -/
   deage : ∀ lv s op' k, Core n s → TopOK s.op k s.path s.choices lv → s.skipDeage = false →
     s.op.age = s.path.length → JA lv s → deage s.op = .ok op' → JN lv { s with op := op' }
@@ -56,7 +55,6 @@ theorem StepQ.toJ {n : Nat} {nb : Nbrs} {cb fl : Sl Nat} {QA QN QS : OP → Prop
       (fun _ s => s.currentBest = cb ∧ s.firstLeaf = fl ∧ QN s.op)
       (fun _ s => s.currentBest = cb ∧ s.firstLeaf = fl ∧ QS s.op) where
   na := fun _ _ h => ⟨h.1, h.2.1, hq.na _ h.2.2⟩
-  sa := fun _ _ h => ⟨h.1, h.2.1, hq.sa _ h.2.2⟩
   deage := fun _ s op' _ hc _ _ hage h hd =>
     ⟨h.1, h.2.1, hq.deage _ _ hc.part hc.age (by
       have := hc.part.bdLen_pos
